@@ -217,7 +217,7 @@ func ParseFunction(parameterList, body string) (*ast.FunctionLiteral, error) {
 			return nil, err
 		}
 	}
-	return parseWholeFunction("(function(" + parameterList + ") {\n" + body + "\n})")
+	return parseWholeFunction("(function(" + parameterList + "\n) {\n" + body + "\n})")
 }
 
 // parseWholeFunction parses src, which must be one parenthesised function expression and nothing else.
